@@ -137,6 +137,13 @@ def gen_hist(rng, tier):
                             [[[1, 1, 0], [3, 0, 64, 12], [2, 0, 0], [10, 100]] + [[2, 0, 1], [10, 50]] * 10 + [[10, 200], closer,
                               [3, 0, 64, 1], [6, 0]]],
                             opts=[{"LINGER": 200, "SNDTIMEO": -1}, {"LINGER": 0, "RCVHWM": 1}], threads=thr, reap_ms=4500))
+    # F2d: a socket lingering on an undelivered backlog (LINGER -1, peer connected but never reading) whose peer then goes
+    # away: the dead session's pipe must not keep the linger alive - term() has to finish promptly
+    # (added after the seeded change C16-late-actor-stopping-ignored-while-lingering)
+    for thr in (2,) if tier == "quick" else (1, 2, 4):
+        cases.append(mk("linger-peer-dies-%d" % thr, ["PUSH", "PULL"], ["tcp", "tcp"],
+                        [[[1, 1, 0], [2, 0, 0], [10, 150], [3, 0, 262144, 20], [8, 0], [10, 150], [8, 1], [10, 100], [11], [6, 0]]],
+                        opts=[{"LINGER": -1, "SNDHWM": 4, "SNDTIMEO": 100}, {"LINGER": 0, "RCVHWM": 1}], threads=thr, reap_ms=9000))
     # F2c: a monitor whose one-event channel is full and whose receiver is alive but never read, endpoints still registered
     for t in ("PULL", "DEALER", "PUB"):
         for closer in ([8, 0], [11]):
